@@ -78,6 +78,7 @@ impl World for W1 {
                     Batch { name: "named-patterns", quick: 4_000, thorough: 200_000, faulty: true },
                     Batch { name: "variables", quick: 1_500, thorough: 60_000, faulty: true },
                     Batch { name: "sweep-all-cuts-patterns-variables", quick: 200, thorough: 20_000, faulty: true },
+                    Batch { name: "distinct-lru-eviction", quick: 16, thorough: 400, faulty: true },
                 ],
                 rule: "one run = one generated program with a single stateful feature (window of every kind plain/partitioned with aggregate or direct emit; sequence with 2-3 steps, optional all/not/within/key predicate; 2-way join; distinct; limit; watermark+lateness with optional window), 4-30 events (ms-aligned or sub-millisecond timestamps; event-time disorder and watermark advances for watermark programs) and 1-3 tape-chosen crash points (sweep batch: every cut point of the history, one at a time). Crash = force_checkpoint through the real CheckpointManager/codec into a MemoryStore or FileStore, drop the engine, fresh engine + load + enable_checkpointing (auto-restore). Oracle: the uninterrupted run of the same engine on the same events, compared output by output (type, timestamp, fields) as the run proceeds. Non-trivial = >= 4 events processed and >= 1 step with output; distinct = distinct decoded-trace hash.",
                 real: vec!["Engine::{load, process, create_checkpoint/force_checkpoint, enable_checkpointing/restore_checkpoint, advance_external_watermark}", "CheckpointManager, codec, MemoryStore/FileStore", "window/sase/join/watermark checkpoint+restore code"],
